@@ -97,9 +97,7 @@ func (c *Ctx) applyCastTable(from int) {
 			needed = true
 		}
 	}
-	if !needed {
-		return
-	}
+	_ = needed // the table is consulted always: a structural reading that is satisfied says nothing about a check added around it
 	t := c.castTable()
 	if !t.known {
 		return
